@@ -369,3 +369,5 @@ func jlist(x interface{}) []interface{} {
 		return []interface{}{v}
 	}
 }
+
+func asListAlways(xs []interface{}) interface{} { return xs }
